@@ -11,7 +11,8 @@ RULE = ("case = (one of 20 RTL queue classes over 4 interface protocols, or one 
         "type (Bits8/16/32 or a 2-field struct) x scheduler x 40..200 cycles of seeded enqueue/dequeue offers biased to "
         "the full and empty boundaries and to simultaneous enq+deq x stall patterns x mid-run resets (only for classes "
         "that read reset); non-trivial = queue reached full and empty again and >= 1 same-cycle special (pipe enq when "
-        "full / bypass deq when empty / simultaneous) occurred; distinct = case digest")
+        "full / bypass deq when empty / simultaneous) occurred; distinct = case digest. CL queues also run open-loop "
+        "(OpenLoopCLPass); 40% of the CL consumers look at the head through peek() before they dequeue")
 TIERS = {"quick": {"runs": 3200, "budget_s": 100, "chunk": 4},
          "thorough": {"runs": 1000000, "budget_s": 1800, "chunk": 8}}
 REAL = ["pymtl3.stdlib.queues.{queues,enrdy_queues,valrdy_queues,cl_queues}", "pymtl3.stdlib.stream.queues",
